@@ -48,6 +48,16 @@ func c10Histories(tier string) [][]string {
 			out = append(out, []string{ok[1], f1, f2, ok[6], ok[2], ok[7]})
 		}
 	}
+	if tier == "thorough" {
+		// three failures of different kinds in a row between every pair of succeeding inputs
+		for i := 0; i < len(ok); i += 2 {
+			for j := 1; j < len(ok); j += 3 {
+				for k := 0; k+2 < len(fail); k++ {
+					out = append(out, []string{ok[i], fail[k], fail[k+1], fail[k+2], ok[j], fail[(k+5)%len(fail)], ok[i], ok[j]})
+				}
+			}
+		}
+	}
 	// what earlier inputs memoized stays memoized: log() lines are not replayed on a cache hit, so they show a lost cache
 	// (only failing inputs that define nothing: redefining a function legitimately flushes the cache)
 	for _, f1 := range []string{`!undefined_name`, `![1,2,3][b:a][0]()`, `!for i=3 {if i==1 {error("x")}; i}`, `!for j = 2 {for i = 2 {[1][i+5]}}`, `!(func(n){self(n+1)})(0)`, `!for i = 3 {(func(n){self(n+1)})(i)}`, `!(n => 10 / n)(a - a)`} {
